@@ -127,6 +127,12 @@ def h_step(comp: int, op: int, sk: int, sd: int, ss: int, ek: int, ed: int, es: 
     pre: not (sk in (2, 3) and ak in (2, 3) and sk != ak) and not (ek in (2, 3) and ak in (2, 3) and ek != ak)
     post: _
     """
+    return _step_impl(comp, op, sk, sd, ss, ek, ed, es, hasdur, dd, ds, ak, ad, asec, add, ads)
+
+
+def _step_impl(comp, op, sk, sd, ss, ek, ed, es, hasdur, dd, ds, ak, ad, asec, add, ads):
+    """body of h_step without a contract of its own (h_step_pool calls it: CrossHair enforces the
+    contracts of called functions, and the reachability twin negates every postcondition of the module)"""
     utc = stub_utc()
     c = _new(comp)
     _store(c, comp, sk, sd, ss, ek, ed, es, hasdur, dd, ds, utc)
@@ -296,7 +302,7 @@ def h_step_pool(comp: int, op: int, sk: int, ek: int, hasdur: bool, dd: int, dsi
     comp = pin("comp", comp); op = pin("op", op)
     sk = _cc(sk, 4); ek = _cc(ek, 4); ak = max(1, _cc(ak, 4)); dd = _cc(dd, 2)
     ds = SEC_POOL[_cc(dsi, len(SEC_POOL))]
-    return h_step(comp, op, sk, 1, 36000, ek, 2, 36000, bool(hasdur), dd, ds, ak, 1, 36000, dd, ds)
+    return _step_impl(comp, op, sk, 1, 36000, ek, 2, 36000, bool(hasdur), dd, ds, ak, 1, 36000, dd, ds)
 
 
 # real zoned values across a daylight-saving transition, built at import (C datetimes with a real
